@@ -131,7 +131,7 @@ fn alter_applies(cell: &Cell, a: Alter) -> bool {
         Alter::FixedPortDest => cell.proto != Proto::Icmp && cell.ports == Ports::FixedBoth,
         Alter::FlowPort => cell.proto == Proto::Udp && cell.strategy != MultipathStrategy::Classic && cell.ports != Ports::FixedBoth,
         Alter::Magic | Alter::MagicShort(_) => cell.proto == Proto::Udp && cell.strategy == MultipathStrategy::Dublin && cell.v6,
-        Alter::IcmpId => cell.proto == Proto::Icmp,
+        Alter::IcmpId | Alter::IcmpIdZero => cell.proto == Proto::Icmp,
     }
 }
 
@@ -253,6 +253,7 @@ pub fn replay(path: &str) -> i32 {
         "Some(Protocol)" => Some(Alter::Protocol),
         "Some(Magic)" => Some(Alter::Magic),
         "Some(IcmpId)" => Some(Alter::IcmpId),
+        "Some(IcmpIdZero)" => Some(Alter::IcmpIdZero),
         x if x.starts_with("Some(MagicShort(") => Some(Alter::MagicShort(x.trim_start_matches("Some(MagicShort(").trim_end_matches("))").parse().expect("MACHINERY: MagicShort"))),
         _ => None,
     };
@@ -311,7 +312,7 @@ pub fn run(args: &Args) -> i32 {
         }
         // negative half
         for a in [
-            Alter::DestAddr, Alter::FixedPort, Alter::FixedPortDest, Alter::Protocol, Alter::Magic, Alter::IcmpId, Alter::FlowPort,
+            Alter::DestAddr, Alter::FixedPort, Alter::FixedPortDest, Alter::Protocol, Alter::Magic, Alter::IcmpId, Alter::IcmpIdZero, Alter::FlowPort,
             Alter::MagicShort(0), Alter::MagicShort(1), Alter::MagicShort(2), Alter::MagicShort(3), Alter::MagicShort(4), Alter::MagicShort(5),
         ] {
             if !alter_applies(&cell, a) {
@@ -495,7 +496,7 @@ pub fn run(args: &Args) -> i32 {
     rep.set("min_distinct_sequences_per_cell", json!(min_cov));
     rep.set("cells_with_full_sequence_range", json!(full_cov));
     rep.observe("quotations_with_altered_flow_port_accepted", json!(flow_port));
-    rep.set("rule", json!(format!("56 cells; the real strategy (first_ttl 1, max_ttl 254, max_inflight 255, initial_sequence 0) runs until the allocator wraps, so every sequence it can issue (0..=65276, Dublin/IPv6: 0..=765) is emitted by real dispatch code and answered at once by a hop with quotation shape (ttl-1+offset) mod {NSHAPES} ({{hdr+8,+28,+64,full,unreachable,ttl 0,cksum 0,tos,outer IHL 6/15,RFC4884 compliant/legacy,combo}}); quick: one shape offset per cell, thorough: all {NSHAPES} offsets = full product sequence x shape; + boundary initial sequences, 1024-octet probes (truncated quotations), target-originated answers one probe per round (Echo Reply / port unreachable / SYN-ACK). Oracle: ground-truth check of every published slot (C01's). Negative half: every response altered in one identity field (destination, pinned port - each of the two when both are pinned -, protocol, Dublin magic - one octet flipped, or a foreign datagram carrying only the first 0..5 octets of it -, ICMP identifier): no slot may complete. + tcp cells x {{L2,L3,silent-mid,dup}} x connect timeout {{5,15,25,35}} ms, all executions with <= 2 (3 thorough) deviations (attempts expiring while younger ones complete); + tcp cells x {{L2,L3,silent-mid}} with address-in-use offered at every bind and connect (the probe is re-issued under the next sequence) and delays, same bound: answers to re-issued probes are attributed to them; + tcp cells, table of outstanding connection attempts full (two silent rounds of 254 attempts, connect timeout 20 ms), then the target at distance 100 answers with a handshake round-trip of 3.5 send slots: ground truth + no handshake answer that reached the host two read timeouts before its round was published is left unlooked-at. distinct_nontrivial = recognised answers + altered quotations")));
+    rep.set("rule", json!(format!("56 cells; the real strategy (first_ttl 1, max_ttl 254, max_inflight 255, initial_sequence 0) runs until the allocator wraps, so every sequence it can issue (0..=65276, Dublin/IPv6: 0..=765) is emitted by real dispatch code and answered at once by a hop with quotation shape (ttl-1+offset) mod {NSHAPES} ({{hdr+8,+28,+64,full,unreachable,ttl 0,cksum 0,tos,outer IHL 6/15,RFC4884 compliant/legacy,combo}}); quick: one shape offset per cell, thorough: all {NSHAPES} offsets = full product sequence x shape; + boundary initial sequences, 1024-octet probes (truncated quotations), target-originated answers one probe per round (Echo Reply / port unreachable / SYN-ACK). Oracle: ground-truth check of every published slot (C01's). Negative half: every response altered in one identity field (destination, pinned port - each of the two when both are pinned -, protocol, Dublin magic - one octet flipped, or a foreign datagram carrying only the first 0..5 octets of it -, ICMP identifier - to another value and to zero -): no slot may complete. + tcp cells x {{L2,L3,silent-mid,dup}} x connect timeout {{5,15,25,35}} ms, all executions with <= 2 (3 thorough) deviations (attempts expiring while younger ones complete); + tcp cells x {{L2,L3,silent-mid}} with address-in-use offered at every bind and connect (the probe is re-issued under the next sequence) and delays, same bound: answers to re-issued probes are attributed to them; + tcp cells, table of outstanding connection attempts full (two silent rounds of 254 attempts, connect timeout 20 ms), then the target at distance 100 answers with a handshake round-trip of 3.5 send slots: ground truth + no handshake answer that reached the host two read timeouts before its round was published is left unlooked-at. distinct_nontrivial = recognised answers + altered quotations")));
     for s in samples {
         rep.sample(s);
     }
